@@ -149,6 +149,17 @@ extern "C" void verif_harness() {
       double r = opt.optimize(); double xr = opt.getParameters()[0].getValue();
       SYM_ASSERT_EQ(xr, qm, "Newton on a strictly convex quadratic did not reach the minimiser");
       SYM_ASSERT_EQ(r, qc, "Newton on a strictly convex quadratic did not return the minimum"); SYM_ASSERT(f->X() == xr, "objective is not left at the reported point");
+    } else if (algo == 2) {
+      // golden section from [0,1] (outward bracketing first), minimiser anywhere in (-5,5): on termination the bracket [x0,x3] has relative width <= tol and contains the minimiser
+      double tol = 0.2; SYM_ASSUME(qm > -5 && qm < 5 && (qm > 0.05 || qm < -0.05));
+      auto f = make_shared<Obj>(0.5, 40); f->quad = true; f->qa = qa; f->qm = qm; f->qc = qc;
+      GoldenSectionSearch opt(f); quiet(opt); opt.setInitialInterval(0, 1); opt.setConstraintPolicy(AutoParameter::CONSTRAINTS_KEEP);
+      opt.getStopCondition()->setTolerance(tol); opt.setMaximumNumberOfEvaluations(30); opt.init(f->getParameters());
+      double r = opt.optimize(); double xr = opt.getParameters()[0].getValue();
+      SYM_ASSERT(opt.isToleranceReached(), "golden section on a strictly convex quadratic did not converge within 30 steps at tolerance 0.2");
+      SYM_ASSERT(fabs(xr - qm) <= 2 * tol * fabs(xr) / (1 - 2 * tol) + 1e-9, "golden section stopped further from the quadratic's minimiser than its stopping tolerance allows");
+      SYM_ASSERT_EQ(r, f->valueAt(xr), "golden section: returned value is not the objective at the reported point (quadratic)"); SYM_ASSERT(f->X() == xr, "golden section: objective not left at the reported point (quadratic)");
+      SYM_ASSERT(r <= f->valueAt(0.0) || r <= f->valueAt(1.0), "golden section ended on a worse value than at both ends of its initial interval (quadratic)");   /* the parameter's own starting value is documented as unused by this optimiser; an end point that is the exact minimiser cannot be improved on */
     } else {
       // Brent with inward bracketing on [0,1], minimiser inside; stopping tolerance 0.05 (forked: 0.2): on termination the minimiser is within tol2 = 2(tol|x|+ZEPS) of the reported point
       static const double TOLS[2] = {0.05, 0.2}; double tol = TOLS[__sym_choose("tolerance", 0, 1)];
